@@ -112,6 +112,12 @@ class ClassModel:
                     return self._class_attrs[key]
         return self._NOATTR
 
+    def set_class_attr(self, cname: str, attr: str, value: Any) -> None:
+        """``cls.attr = value``: stored on that class, found by its instances and subclasses through the MRO."""
+        if not hasattr(self, "_class_attrs"):
+            self._class_attrs = {}
+        self._class_attrs[(cname, attr)] = value
+
     def match_args(self, cname: str) -> tuple | None:
         for c in self._mro(cname):
             for n in self.classes[c].body:
